@@ -40,6 +40,14 @@ struct X { I i; u8 a[IC]; };
     'floats': '''enum E { E_A = 0x7fffffff };
 struct X { float f; double d; i8 a; i16 b; i32 c; i64 e; E x<2>; };
 ''',
+    'typedef_union': '''struct F { u8 p; };
+union U { 1: u8 a; 2: F b; };
+typedef U TU;
+typedef TU TTU;
+typedef F TF;
+struct X { TTU u; TU v[2]; TF f; TU* o; TTU w<>; };
+union W { 1: TTU x; 2: TF y; };
+''',
     'comments': '''// line comment
 /* block
    comment */
@@ -228,6 +236,19 @@ ISAR_BASES = {
 ISAR_INC = '<xml><struct name="I"><member name="x" type="u8"/></struct></xml>\n'
 
 
+ISAR_BASES['isar_typedef_union'] = '''<xml>
+<struct name="F"><member name="p" type="u8"/></struct>
+<union name="U"><member name="a" type="u8" discriminatorValue="1"/><member name="f" type="F" discriminatorValue="2"/></union>
+<typedef name="TU" type="U"/>
+<typedef name="TTU" type="TU"/>
+<typedef name="TF" type="F"/>
+<struct name="X"><member name="u" type="TTU"/><member name="v" type="TU"><dimension size="2"/></member><member name="f" type="TF"/>
+<member name="o" type="TU" optional="true"/></struct>
+<union name="W"><member name="x" type="TTU" discriminatorValue="1"/><member name="y" type="TF" discriminatorValue="2"/></union>
+</xml>
+'''
+
+
 def xml_mutations(base, tier):
     import xml.etree.ElementTree as ET
     root = ET.fromstring(base)
@@ -304,7 +325,7 @@ PATCH_RULES = ['type', 'insert', 'remove', 'dynamic', 'greedy', 'static', 'limit
 
 
 def patch_scripts():
-    args = ['a', 'o', 'nosuch', 'K', '0', '999', 'x1', 'u8', 'F']
+    args = ['a', 'o', 'nosuch', 'K', '0', '999', 'x1', 'u8', 'F', 'K*2', 'T*2', 'TT+K']
     for node in ('S', 'U', 'Absent', 'E', 'K'):
         yield node
         for rule in PATCH_RULES:
@@ -542,6 +563,23 @@ def extra_isar():
         ('isar empty union', '<xml><union name="U"></union></xml>'),
         ('isar empty enum', '<xml><enum name="E"></enum><struct name="T"><member name="e" type="E"/></struct></xml>'),
         ('isar optional array', '<xml><struct name="S"><member name="a" type="u8" optional="true"><dimension size="3"/></member></struct></xml>'),
+        ('isar size names a typedef', '<xml><typedef name="TC" primitiveType="32 bit integer unsigned"/><struct name="S">'
+                                      '<member name="a" type="u8"><dimension size="TC*2"/></member></struct></xml>'),
+        ('isar size names a typedef of a typedef', '<xml><typedef name="TC" primitiveType="32 bit integer unsigned"/>'
+                                                   '<typedef name="TD" type="TC"/><struct name="S"><member name="a" type="u8">'
+                                                   '<dimension size="TD + 1"/></member></struct></xml>'),
+        ('isar size names a builtin type', '<xml><typedef name="TC" type="u32"/><struct name="S"><member name="a" type="u8">'
+                                           '<dimension size="u32*2"/></member></struct></xml>'),
+        ('isar size names a struct', '<xml><struct name="F"><member name="p" type="u8"/></struct><struct name="S">'
+                                     '<member name="a" type="u8"><dimension size="F*2"/></member></struct></xml>'),
+        ('isar size names an enum', '<xml><enum name="E"><enum-member name="E_A" value="1"/></enum><struct name="S">'
+                                    '<member name="a" type="u8"><dimension size="E + E_A"/></member></struct></xml>'),
+        ('isar constant names a typedef', '<xml><typedef name="TC" primitiveType="32 bit integer unsigned"/>'
+                                          '<constant name="K" value="TC + 1"/><struct name="S"><member name="a" type="u8">'
+                                          '<dimension size="K"/></member></struct></xml>'),
+        ('isar enum value names a typedef', '<xml><typedef name="TC" type="u8"/><enum name="E"><enum-member name="E_A" value="TC"/>'
+                                            '</enum></xml>'),
+        ('isar constant names itself', '<xml><constant name="K" value="K + 1"/></xml>'),
         ('isar include cycle through typedef', '<xml><typedef name="Y" type="X"/><typedef name="X" type="Y"/>'
                                                '<struct name="S"><member name="a" type="u8"><dimension size="Y+1"/></member></struct></xml>'),
     ]
@@ -555,7 +593,8 @@ def baseline(files, argv_fn):
                 f.write(content)
         o, detail, calls = run_main(argv_fn(d), 10 ** 8)
         if o != 'return':
-            raise HarnessError('base input does not compile: %s %s' % (o, detail))
+            # the unchanged base is also judged as an input of its own (label 'identity'); its edits get a default budget
+            return 200000
         return calls
     finally:
         shutil.rmtree(d, ignore_errors=True)
@@ -568,7 +607,7 @@ def run(ctx):
     nbase = 0
     for name, base in sorted(BASES.items()):
         calls = baseline({'m.prophy': base, 'inc.prophy': INC}, lambda d: all_outs(d) + [os.path.join(d, 'm.prophy')])
-        muts = list(text_mutations(base, ctx.tier))
+        muts = [('identity', base)] + list(text_mutations(base, ctx.tier))
         if ctx.tier == 'thorough' and name in ('comments', 'optional_union'):
             muts += list(double_mutations(base))
         nbase += 1
@@ -584,10 +623,11 @@ def run(ctx):
         jobs.append(('prophy', ('short', short[k:k + 300], 60000), ctx.tier))
     for name, base in sorted(ISAR_BASES.items()):
         calls = baseline({'m.xml': base, 'inc.xml': ISAR_INC}, lambda d: ['--isar'] + all_outs(d) + [os.path.join(d, 'm.xml')])
-        muts = list(xml_mutations(base, ctx.tier))
+        muts = [('identity', base)] + list(xml_mutations(base, ctx.tier))
         for k in range(0, len(muts), chunk):
             jobs.append(('isar', (name, muts[k:k + chunk], calls), ctx.tier))
-    isar_calls = calls
+        if name == 'isar_all':
+            isar_calls = calls
     gs = list(digraphs(ctx.tier, ctx.seed))
     for k in range(0, len(gs), 60):
         jobs.append(('digraph', (gs[k:k + 60], 20000), ctx.tier))
